@@ -160,7 +160,10 @@ ShiftZ == <<1, -1, 2>>
 (* NATURAL SCALE of each quantity, not against |expected| alone: a backward-stable solver    *)
 (* returns round-off of the size eps * (natural scale) where the exact value happens to be   *)
 (* zero (b orthogonal to a column), so exact zeros are not demanded beyond Tol * scale.      *)
-(*   coefficient j : scale_j = sum_k |M^-1|_jk (|A|^T W |b|)_k        with M = A^T W A        *)
+(*   coefficient j : scale_j = sum_k |M^-1|_jk ( (|A|^T W |b|)_k + (|M| |x|)_k ),  M = A^T W A  *)
+(*                   (the componentwise forward-error scale of solving M x = A^T W b: round-  *)
+(*                   off in the right-hand side AND in M; without the second term the scale   *)
+(*                   is exactly 0 where (M^-1)_jk vanishes, and no solver returns an exact 0) *)
 (*   fitted value i: scale_i = sum_j |A_ij| scale_j                                           *)
 (*   chi-square    : Q = sum_i w_i (|b_i| + scale_i)^2; chi2 is a SUM OF SQUARED RESIDUALS,   *)
 (*                   so it is judged relative to itself, plus round-off level (not Tol level) *)
@@ -173,25 +176,31 @@ NatScaleW(A, b, w) ==
       d == Abs(Det(G))
       ad == Adj(G)
       M == Cols(A)
+      x == WLSw(A, b, w).acoeff
       ar == [k \in 1..M |-> ISum([i \in 1..Rows(A) |-> w[i] * Abs(A[i][k]) * Abs(b[i])])]
-      sn == [j \in 1..M |-> ISum([k \in 1..M |-> Abs(ad[j][k]) * ar[k]])]
-  IN [x |-> [j \in 1..M |-> R(sn[j], d)],
-      y |-> [i \in 1..Rows(A) |-> R(ISum([j \in 1..M |-> Abs(A[i][j]) * sn[j]]), d)]]
+      mx == [k \in 1..M |-> RSum([l \in 1..M |-> XMul(OfInt(Abs(G[k][l])), RAbs(x[l]))])]
+      sx == [j \in 1..M |-> RSum([k \in 1..M |-> XMul(R(Abs(ad[j][k]), d), XAdd(OfInt(ar[k]), mx[k]))])]
+  IN [x |-> sx,
+      y |-> [i \in 1..Rows(A) |-> RSum([j \in 1..M |-> XMul(OfInt(Abs(A[i][j])), sx[j])])]]
 NatScale(A, b, s) == NatScaleW(A, b, WeightsOf(s))
+(* The rational evaluation above overflows 32 bits for the larger three-column systems, so   *)
+(* for the replay TLC hands over the exact integer pieces |M| and |A|^T W |b|; together with *)
+(* the exact M^-1 (= covar) and x (= acoeff) of the solution record they determine the scale *)
+(* by the formula above (sums and products of TLC's exact values, done in exact fractions).  *)
+NatPieces(A, b, s) ==
+  LET w == WeightsOf(s)
+      G == NormalW(A, w)
+  IN [g |-> [k \in 1..Cols(A) |-> [l \in 1..Cols(A) |-> Abs(G[k][l])]],
+      ar |-> [k \in 1..Cols(A) |-> ISum([i \in 1..Rows(A) |-> w[i] * Abs(A[i][k]) * Abs(b[i])])]]
 NatScaleChi(A, b, w, nat) == RSum([i \in 1..Rows(A) |-> XMul(OfInt(w[i]), RSq(XAdd(OfInt(Abs(b[i])), nat.y[i])))])
 AgreesAtNaturalScale(dev) == dev <= 1
 (* the scale really bounds the solution (triangle inequality), so max(|e|, scale) = scale     *)
-(* for coefficients and fitted values; stated on the common-denominator numerators            *)
+(* for coefficients and fitted values                                                         *)
 ScaleBoundsSolution(A, b, w) ==
-  LET G == NormalW(A, w)
-      ad == Adj(G)
-      r == RhsW(A, b, w)
-      M == Cols(A)
-      ar == [k \in 1..M |-> ISum([i \in 1..Rows(A) |-> w[i] * Abs(A[i][k]) * Abs(b[i])])]
-      xn == [j \in 1..M |-> ISum([k \in 1..M |-> ad[j][k] * r[k]])]
-      sn == [j \in 1..M |-> ISum([k \in 1..M |-> Abs(ad[j][k]) * ar[k]])]
-  IN /\ \A j \in 1..M : Abs(xn[j]) <= sn[j]
-     /\ \A i \in 1..Rows(A) : Abs(ISum([j \in 1..M |-> A[i][j] * xn[j]])) <= ISum([j \in 1..M |-> Abs(A[i][j]) * sn[j]])
+  LET n == NatScaleW(A, b, w)
+      sol == WLSw(A, b, w)
+  IN /\ \A j \in 1..Cols(A) : Le(RAbs(sol.acoeff[j]), n.x[j])
+     /\ \A i \in 1..Rows(A) : Le(RAbs(sol.yfit[i]), n.y[i])
 (* and it is homogeneous like the solution itself (so the unit-scaled replays rescale it too) *)
 ScaleHomogeneous(A, b, s, cc) ==
   LET n0 == NatScale(A, b, s) IN
